@@ -435,6 +435,29 @@ func run(c *mon.Ctx) {
 		}
 	})
 
+	// ---- the decoders are functions of their argument whoever else is decoding at the same time
+	c.Floor("concurrent.calls", 5000)
+	c.Stream("concurrent-decoders", c.N(3, 150), func(i int, r *gen.Rand) {
+		c.Concurrent("psi.NewPMT", 8, 250, r, func(q *gen.Rand) string {
+			p := ref.GenPMT(q, 1+q.Intn(8))
+			pay := q.Slack(append(ref.PointerPrefix(q.Intn(4)), p.Section()...))
+			m, err := psi.NewPMT(pay)
+			if err != nil || m == nil {
+				return fmt.Sprintf("a well-formed payload was rejected: %v", err)
+			}
+			pids, ess := m.Pids(), m.ElementaryStreams()
+			if len(pids) != len(p.Streams) || len(ess) != len(p.Streams) || m.VersionNumber() != p.Version {
+				return fmt.Sprintf("%d PIDs / %d streams / version %d decoded, the section has %d streams, version %d", len(pids), len(ess), m.VersionNumber(), len(p.Streams), p.Version)
+			}
+			for k, st := range p.Streams {
+				if pids[k] != st.PID || ess[k].ElementaryPid() != st.PID || ess[k].StreamType() != st.Type || len(ess[k].Descriptors()) != len(st.Descs) {
+					return fmt.Sprintf("stream %d decoded as type %#x PID %#x with %d descriptors, encoded type %#x PID %#x with %d", k, ess[k].StreamType(), ess[k].ElementaryPid(), len(ess[k].Descriptors()), st.Type, st.PID, len(st.Descs))
+				}
+			}
+			return ""
+		})
+		c.Class("concurrent-decoders")
+	})
 	// ---- table header codec: encode then decode is the identity (exhaustive), reserved bits '11'
 	c.Exhaustive("TableHeader: table id 256 x syntax 2 x private 2 x section_length 4096 (12 bits)", 256*4*4096)
 	c.StreamSeedless("table-header", 256, func(id int, r *gen.Rand) {
